@@ -461,11 +461,16 @@ namespace awkward {
       throw std::invalid_argument(
         std::string("axis=0 not allowed for flatten") + FILENAME(__LINE__));
     }
-    else {
+    else if (posaxis == depth + 1) {
       Index64 offsets(1);
       offsets.setitem_at_nowrap(0, 0);
       return std::pair<Index64, ContentPtr>(
         offsets,
+        std::make_shared<EmptyArray>(Identities::none(), util::Parameters()));
+    }
+    else {
+      return std::pair<Index64, ContentPtr>(
+        Index64(0),
         std::make_shared<EmptyArray>(Identities::none(), util::Parameters()));
     }
   }
